@@ -316,6 +316,21 @@ var keyPool = [][]byte{[]byte("a"), []byte("b"), []byte("key"), []byte("A"), []b
 func Key(t *rapid.T, validUTF8 bool, label string) []byte {
 	w := rapid.IntRange(0, 9).Draw(t, label+"_kw")
 	switch {
+	case w == 9:
+		// one- and two-byte keys over the whole byte range (valid mode: ASCII and
+		// two-byte runes): short keys are what fast paths and tables are built for
+		if validUTF8 {
+			if rapid.Bool().Draw(t, label+"_k1a") {
+				return []byte{byte(rapid.IntRange(0x20, 0x7e).Draw(t, label+"_k1"))}
+			}
+			return []byte(string(rune(rapid.IntRange(0x80, 0x7ff).Draw(t, label+"_k2r"))))
+		}
+		n := rapid.IntRange(1, 2).Draw(t, label+"_k1n")
+		k := make([]byte, n)
+		for i := range k {
+			k[i] = rapid.Byte().Draw(t, label+"_k1")
+		}
+		return k
 	case w < 5:
 		if Excluded("empty_key") {
 			return rapid.SampledFrom(keyPool[:6]).Draw(t, label+"_kp")
